@@ -445,7 +445,7 @@ func VerifPoolDrain() (out [4][]VerifPooled) {
 // slots of a pooled node (children are not followed: they may be stale).
 func verifImage(ref nodeRef) string {
 	n := ref.node()
-	img := []byte{byte(ref.tag), n.childrenLen, byte(n.prefixLen), byte(n.prefixLen >> 8)}
+	img := []byte{byte(ref.tag), byte(n.childrenLen), byte(n.prefixLen), byte(n.prefixLen >> 8)}
 	img = append(img, n.prefix[:]...)
 	occ := func(c []nodeRef) {
 		for i := range c {
